@@ -1,6 +1,7 @@
 SPECIFICATION MCSpec
 CONSTANTS AggReplace = FALSE
  AggKeepFirst = FALSE
+ EarlyAdd = FALSE
  MCKinds = {"pro","misc"}
  MaxStores = 3
  MaxQ = 2
